@@ -13,8 +13,12 @@
     target), every parameter value.  Choices are outside (guards are not consulted; C09). *)
 From Coq Require Import Strings.String.
 From Coq Require Import ZArith List Bool Lia Strings.Byte.
+<<<<<<< HEAD
 From YV Require Import Val.Model Tree.Schema Tree.Merge Tree.PathExpr Tree.PathExprProofs Tree.Params Tree.Project Tree.ParamsProofs Tree.Reading Tree.ReadingProofs.
 From YV Require Import Tree.Editor Tree.ExportProofs Tree.ParamsExport Tree.ParamsList Tree.ProjectLaws.
+=======
+From YV Require Import Val.Model Tree.Schema Tree.Merge Tree.PathExpr Tree.PathExprProofs Tree.Params Tree.Project Tree.ParamsProofs Tree.Reading Tree.ReadingProofs Tree.Chain Tree.ProjectChain Tree.ChainProofs.
+>>>>>>> i07
 Import ListNotations.
 Open Scope Z_scope.
 
@@ -232,6 +236,7 @@ Example C07_example :
 Proof. repeat split; vm_compute; reflexivity. Qed.
 Print Assumptions C07_example.
 
+<<<<<<< HEAD
 (** ** the bridge to the shared export model (C07Check.classify's [bridge], as a theorem)
 
     The reader without constraints (no constraint object: the empty query) and the shared Editor
@@ -412,3 +417,104 @@ Example C07_project_laws_example :
   ~ sub_d (project_view (view_depth 3) [] law_schema law_data) (project_view (view_depth 2) [] law_schema law_data).
 Proof. exact project_laws_example. Qed.
 Print Assumptions C07_project_laws_example.
+=======
+(** * parameters given in SEVERAL STEPS, a LIST as the target of the read
+    (Tree/Chain.v: one group of constraint entries per step, every hook of every group consulted;
+    Tree/ProjectChain.v: a node is kept when every step keeps it, a row when its index lies in
+    every window given for its list, every container bound holds).
+
+    The read after the steps' parameter records Ps is the projection by the INTERSECTION of their
+    views, or Conflict when it holds more containers than one of the bounds - for records as
+    BuildConstraints produces them ([C07_build_chain_valid]) with at most one step carrying fc.range. *)
+Theorem C07_chain_is_projection : forall Ps kids data,
+  chain_valid Ps -> forallb wf_schema kids = true -> shaped (SCont root_meta kids) (DCont data) = true ->
+  read_chain_content Ps kids data = spec_chain Ps kids data.
+Proof. exact read_chain_is_projection. Qed.
+Print Assumptions C07_chain_is_projection.
+
+(** ... and so is the read of a list selection (the entries of the list, levels counted from the list) *)
+Theorem C07_list_target_is_projection : forall Ps m keys row rows,
+  chain_valid Ps -> wf_schema (SList m keys row) = true -> shaped (SList m keys row) (DList rows) = true ->
+  read_chain_rows Ps (SList m keys row) rows = spec_chain_rows Ps (SList m keys row) rows.
+Proof. exact read_chain_rows_is_projection. Qed.
+Print Assumptions C07_list_target_is_projection.
+
+Theorem C07_build_chain_valid : forall steps Ps, build_chain steps = POk Ps ->
+  Forall valid_params Ps /\ Forall range_start_ok Ps.
+Proof. exact build_chain_valid. Qed.
+Print Assumptions C07_build_chain_valid.
+
+(** the declarative reading of the steps (spec oracle of the check) and BuildConstraints agree *)
+Theorem C07_interpret_chain_agrees : forall steps asts,
+  match interpret_chain steps asts with
+  | TOk Ps => build_chain steps = POk Ps
+  | TBad => is_err (build_chain steps)
+  | TUnk => True
+  end.
+Proof. exact interpret_chain_agrees. Qed.
+Print Assumptions C07_interpret_chain_agrees.
+
+(** full statement: for EVERY chain the model does what the oracle demands.  It does not hold of
+    the faithful model (known finding 1: two windows given in separate steps do not intersect);
+    it holds outside that region, where an invalid value in any step is an error *)
+Definition C07_chain_full_statement : Prop := chain_full_statement.
+
+Theorem C07_chain_partial : forall kids data steps asts,
+  forallb wf_schema kids = true -> shaped (SCont root_meta kids) (DCont data) = true ->
+  match interpret_chain steps asts with
+  | TOk Ps => (range_steps Ps <= 1)%nat -> read_steps_content kids data steps = spec_chain Ps kids data
+  | TBad => is_err (read_steps_content kids data steps)
+  | TUnk => True
+  end.
+Proof. exact chain_model_meets_spec. Qed.
+Print Assumptions C07_chain_partial.
+
+Theorem C07_chain_list_target_partial : forall m keys row rows steps asts,
+  wf_schema (SList m keys row) = true -> shaped (SList m keys row) (DList rows) = true ->
+  match interpret_chain steps asts with
+  | TOk Ps => (range_steps Ps <= 1)%nat ->
+              read_steps_rows (SList m keys row) rows steps = spec_chain_rows Ps (SList m keys row) rows
+  | TBad => is_err (read_steps_rows (SList m keys row) rows steps)
+  | TUnk => True
+  end.
+Proof. exact chain_model_meets_spec_rows. Qed.
+Print Assumptions C07_chain_list_target_partial.
+
+Theorem C07_chain_full_statement_refuted : ~ C07_chain_full_statement.
+Proof. exact chain_full_statement_refuted. Qed.
+Print Assumptions C07_chain_full_statement_refuted.
+
+(** list q of three rows, fc.range=q!1-3 in one step and fc.range=q!0-2 in the next: rows 0 and 1
+    are returned, the windows have only row 1 in common *)
+Example C07_chain_two_windows_refuted :
+  forallb wf_schema tw_kids = true /\ shaped (SCont root_meta tw_kids) (DCont tw_data) = true /\
+  read_steps_content tw_kids tw_data [[(B "fc.range", B "q!1-3")]; [(B "fc.range", B "q!0-2")]]
+    = POk [Some (DList [tw_row x61; tw_row x62])] /\
+  (exists Ps, build_chain [[(B "fc.range", B "q!1-3")]; [(B "fc.range", B "q!0-2")]] = POk Ps /\
+              spec_chain Ps tw_kids tw_data = POk [Some (DList [tw_row x62])]).
+Proof. exact chain_two_windows_refuted. Qed.
+Print Assumptions C07_chain_two_windows_refuted.
+
+(** a chain of one step is the single-step read *)
+Theorem C07_chain_of_one : forall q P kids data,
+  build_constraints q = POk P ->
+  forallb wf_schema kids = true -> shaped (SCont root_meta kids) (DCont data) = true ->
+  read_steps_content kids data [q] = read_query kids data q.
+Proof. exact chain_of_one_is_read_query. Qed.
+Print Assumptions C07_chain_of_one.
+
+(** the hypotheses are satisfiable: depth=1 first and content=config later keeps the depth; a tight
+    fc.max-node-count survives a later step; an invalid value in a later step is an error; a list
+    target with depth=1 and a window naming the list itself *)
+Example C07_chain_example :
+  forallb wf_schema ce_kids = true /\ shaped (SCont root_meta ce_kids) (DCont ce_data) = true /\
+  read_steps_content ce_kids ce_data [[(B "depth", B "1")]; [(B "content", B "config")]]
+    = POk [Some (DCont [None; None])] /\
+  read_steps_content ce_kids ce_data [[(B "fc.max-node-count", B "1")]; [(B "depth", B "8")]] = PErr PConflict /\
+  read_steps_content ce_kids ce_data [[(B "depth", B "2")]; [(B "depth", B "zero")]] = PErr PBadRequest /\
+  wf_schema ce_list = true /\ shaped ce_list (DList [ce_row x61; ce_row x62]) = true /\
+  read_steps_rows ce_list [ce_row x61; ce_row x62] [[(B "depth", B "1")]; [(B "fc.range", B "!1-2")]]
+    = POk [DCont [Some (DLeaf (LV (VStr [x62]))); Some (DCont [None])]].
+Proof. exact chain_example. Qed.
+Print Assumptions C07_chain_example.
+>>>>>>> i07
